@@ -100,6 +100,13 @@ func (v *VoteDB) UpdateContext(round *big.Int, roundIndex uint32) {
 	if v.round != nil && v.round.Cmp(round) == 0 && v.roundIndex == roundIndex {
 		return
 	}
+	// Never move backwards.  A restarted (or paused and resumed) node always re-enters its round at index 1, while
+	// the records may already hold votes of a later index of that round: lowering the context here wiped the restored
+	// marks and let the node sign index 1 a second time, with whatever proposal it sees now.  Keeping the later
+	// context makes alreadyVoted refuse every vote until the node has caught up with its own records.
+	if v.round != nil && (v.round.Cmp(round) > 0 || (v.round.Cmp(round) == 0 && v.roundIndex > roundIndex)) {
+		return
+	}
 
 	v.mark = make(map[VoteType]uint8)
 	v.round = round
